@@ -13,6 +13,7 @@ RULE = ('lists of 1-6 part transcriptions (classes: true overlapping windows of 
         'wider than max_line_width through process_lines. non-trivial = >= 2 non-empty parts; distinct = hash of the part list Independent minimum-error-rate oracle for every detected overlap; enumerations with overlaps of 11-23 characters; astral-plane text; no_logits=True runs; blank stretches longer than a window. Two 270-character windows sharing 262 characters; U+200B at part edges.')
 RULE += ' Round 6: A reference merge independent of the recorder; blank-only parts.'
 RULE += ' Round 7: 300-character windows without a common character; overlap candidates whose error rates differ in the sixth digit.'
+RULE += ' Round 8: The number of recognition windows per over-long line.'
 ASSUMPTIONS = ['the detected overlap is whatever find_best_overlap returned (recorded), the clauses are arithmetic on it',
                'end-to-end leg: the harness run_ocr reads one glyph per 8-px column block, so part transcriptions are exact windows']
 N = {'quick': 3000, 'thorough': 150000}
